@@ -108,8 +108,10 @@ EG_RULE = ('corr.spec.eq: histories over the main language (lam/app/var/let/add/
            'names + 2-3 spares, all injective instances of all subterms). non-trivial = some slot count or symmetry count '
            'changed or a non-asserted pair became equal; distinct = by hash of the case line')
 
-EG_TRUST = ['NOT modelled (judged per run only): add_internal, union_internal/union_leaders/move_to, shrink_slots, rebuild/handle_pending, '
-            'determine_self_symmetries, handle_congruence — no theorem quantifies over all histories of the implementation',
+EG_TRUST = ['NOT modelled (judged per run only): union_internal/union_leaders/move_to, shrink_slots, rebuild/handle_pending in general, '
+            'handle_congruence — no theorem quantifies over all histories of the implementation. Modelled since session 7: add_internal on a miss '
+            '(mk_singleton_class, alloc_eclass, the one handle_pending turn it causes, determine_self_symmetries of the new node) as Snap.addNew '
+            '(Model/Add.lean), tied to the code by the addnew query of the snap suite',
             'oracle completeness is not proved (a derivation may need names or terms outside the finite universe); '
             '"sound"-direction differences are re-judged with a larger pool before being reported',
             'term text encoding on the Lean side, RecExpr construction on the Rust side; the LN conversion Term.close is proved meaning-preserving for the model algebra (C03 close_preserves_meaning) but its faithfulness to alpha-equivalence in the Cong spec is by construction only']
@@ -241,6 +243,12 @@ PROPS['C09'] = dict(
          'Predicates on the implementation: lookup is Some exactly when insertion creates no class and no e-node; lookup eq add; '
          'add(t·ρ) eq add(t)·ρ for a random injective renaming ρ of the free slots. Compared with the Lean oracle: represented? and '
          'the number of slots of the returned invocation (= free slots minus redundant ones). Plus ' + SNAP_RULE +
+         ' corr.add.miss (query addnew of the snap suite): probe e-nodes that are not represented are inserted with EGraph::add; the Lean model '
+         'of the miss path (Snap.addNew: shape, fresh class with the leader entry, the stored shape and bijection as handle_pending leaves them, '
+         'the self-symmetries determine_self_symmetries adds) applied to the dump before the first such insertion must give the dump after it: '
+         'same union-find resolution of every id, old classes untouched, slot set, stored shape, group as a set, stored bijection up to a '
+         'symmetry of the new class (which of several equally minimal variants min_by_key meets first follows a hash set), model state '
+         'satisfies checkInv; harness predicates on every such insertion: exactly one class allocated, lookup afterwards returns the handle. '
          ' non-trivial (look) = the case has a via-union or alpha probe',
     trusted_base=EG_TRUST,
     assumptions=COMMON_ASSUME,
